@@ -72,6 +72,8 @@ func Generate(family string, idx int, seed int64) *Scenario {
 		genManual(r, sc)
 	case "health":
 		genHealth(r, sc)
+	case "daemon":
+		genDaemon(r, sc)
 	case "unsat":
 		genUnsat(r, sc)
 	default:
@@ -493,6 +495,54 @@ func genHealth(r *rand.Rand, sc *Scenario) {
 // genUnsat: a dependency fails to meet the declared condition in every way the statement of C05 lists
 // (exit code, start error, bad working dir, stopped by the user while running / pending / restarting,
 // exits before its ready line or first probe success), with transitive dependents behind it.
+// genDaemon: a daemon (launcher exits, the process is then Launched) with a liveness probe; failure_threshold
+// consecutive failures make it "exited", after which its restart policy decides
+func genDaemon(r *rand.Rand, sc *Scenario) {
+	dm := baseProc("a")
+	dm.Daemon = true
+	dm.HasLiveProbe = true
+	dm.ShutdownCmd = true
+	dm.Threshold = pick(r, 1, 2, 3)
+	dm.Policy = pick(r, "no", "always", "always", "on_failure", "exit_on_failure")
+	dm.MaxRestarts = pick(r, 0, 0, 1, 2)
+	sc.Cfg.Procs = append(sc.Cfg.Procs, dm)
+	// launcher: returns 0 quickly / slowly (probes arrive while it is still Launching) / fails
+	var bs []fakecmd.Behaviour
+	for a := 0; a < 3; a++ {
+		bs = append(bs, autoB(pick(r, 0, 1, 1, 6, 12), pick(r, 0, 0, 0, 0, 1)))
+	}
+	sc.Scripts["a"] = bs
+	if chance(r, 40) {
+		// an ordinary process next to it keeps the project busy for a while
+		o := baseProc("b")
+		sc.Cfg.Procs = append(sc.Cfg.Procs, o)
+		sc.Scripts["b"] = []fakecmd.Behaviour{autoB(pick(r, 5, 20, 40), 0)}
+		if chance(r, 40) {
+			sc.Cfg.Edges = append(sc.Cfg.Edges, Edge{P: "b", K: "a", Cond: "process_started"})
+		}
+	}
+	// liveness outcomes: mostly runs of failures long enough to reach the threshold
+	t := 1 + r.Intn(4)
+	n := 2 + r.Intn(7)
+	for k := 0; k < n; k++ {
+		sc.Steps = append(sc.Steps, Step{When: When{Tick: t}, Do: Op{Kind: "probe", P: "a", Live: true, Ok: chance(r, 25)}})
+		t += 1 + r.Intn(3)
+	}
+	if chance(r, 35) {
+		// keeps failing after the first relaunch
+		for k := 0; k < 4; k++ {
+			sc.Steps = append(sc.Steps, Step{When: When{Event: "Launch", P: "a", Nth: 2}, Do: Op{Kind: "probe", P: "a", Live: true, Ok: false}, DelayTick: 2 + 2*k})
+		}
+	}
+	if chance(r, 30) {
+		sc.Steps = append(sc.Steps, Step{When: When{Tick: 2 + r.Intn(t+6)}, Do: Op{Kind: pick(r, "stop", "restart", "shutdown"), P: "a"}})
+	}
+	if chance(r, 30) {
+		sc.Observe = append(sc.Observe, "a")
+	}
+	sc.EndTick = t + 130
+}
+
 func genUnsat(r *rand.Rand, sc *Scenario) {
 	root := baseProc("a")
 	cond := pick(r, "process_completed_successfully", "process_healthy", "process_log_ready", "process_started", "process_completed_successfully", "process_log_ready")
